@@ -7,8 +7,8 @@ def run(chk):
         "Decides table-agreement clauses between what each of the ~200 functions declares and what its code does, not semantic correctness of results. "
         "R03a: every keyword compile() asks the ArgumentList for is declared in PARAMETERS (and required getters are only used on required/defaulted "
         "parameters). R03d: in resolve-reachable stdlib code no coercion result (VrlValueConvert::try_*, Value::as_*) is consumed by unwrap/expect — "
-        "progressive type checking lets `f!(.x)` deliver a wrong-typed value to resolve, which must yield an error. R03c: values that resolve "
-        "constructs explicitly lie inside return_kind(). Undecided: element kinds of returned collections, semantic correctness.")
+        "progressive type checking lets `f!(.x)` deliver a wrong-typed value to resolve, which must yield an error. R03f: the call builder's progressive type check compares parameter.kind() with the argument's own unmodified kind and records every partial match. Undecided: element kinds of returned collections, semantic correctness.")
     M = sr.function_model(chk.facts)
     sr.rule_keyword_agreement(chk, "R03a", M)
     sr.rule_coercion_unwrapped(chk, "R03d", M)
+    sr.rule_progressive_type_check(chk, "R03f")
